@@ -190,6 +190,12 @@ func (s *sender) recvAck(ackNo uint32) (uint32, error) {
 		return 0, errTooManyDuplicateACKs
 	}
 
+	// Every acknowledged frame is retired from s.frames below. An acknowledgement
+	// that covers more frames than are buffered refers to frames never sent.
+	if newAckNo > s.ackNo && newAckNo-s.ackNo > uint64(len(s.frames)) {
+		return 0, errAckBeyondSent
+	}
+
 	// to not apply on the first 20 ACKs as the network probing is inaccurate
 	if oldAckNo == newAckNo && newAckNo > 20 {
 		missingFrameNo = s.onLoss(ackNo)
